@@ -1,0 +1,19 @@
+//go:build verif
+
+package bandoracle
+
+// Machine-checked contracts for the govc verifier (/verif). Comment-only; compiled only with -tags verif.
+
+// Outage bookkeeping of the oracle poll (C17): when the oracle answers again after an outage, the collected price windows are
+// marked for discarding exactly when the outage lasted at least the accepted height difference (boundary included); a
+// shorter outage only clears the outage marker. (The IBC request itself is outside the model.)
+//@ func BeginBlocker
+//@   property C17
+//@   let d0 = k.GetDiscardData(ctx)
+//@   let diff = k.GetFetchPriceMsg(ctx).AcceptedHeightDiff
+//@   let polling = k.GetLastBlockHeight(ctx) != 0 && height() % 20 == 0 && k.GetCheckFlag(ctx)
+//@   letpost d1 = k.GetDiscardData(ctx)
+//@   letpost answered = k.GetOracleValidationResult(ctx)
+//@   ensures #c17-long-outage-discards-the-window: polling && answered && d0.BlockHeight > 0 && height() - d0.BlockHeight >= diff ==> d1.DiscardBool && d1.BlockHeight == -1
+//@   ensures #c17-short-outage-keeps-the-window: polling && answered && d0.BlockHeight > 0 && height() - d0.BlockHeight < diff ==> d1.DiscardBool == d0.DiscardBool && d1.BlockHeight == -1
+//@   ensures #c17-outage-start-is-recorded: polling && !answered && d0.BlockHeight < 0 ==> d1.BlockHeight == height() && d1.DiscardBool == d0.DiscardBool
